@@ -124,6 +124,21 @@ func randomSymGraph(r *rand.Rand, maxNodes, faultRate int) *sgraphCase {
 	if fault(5) {
 		c.outputs = append(c.outputs, "never_bound")
 	}
+	if r.Intn(3) == 0 {
+		// the same Model is run once before the observed call, with other values and with EVERY default
+		// input overridden: nothing of that call (a binding, an override) may survive into the observed one
+		c.warm = map[string]stens{}
+		for n, v := range c.feed {
+			c.warm[n] = stens{v.shape, v.val + 10000}
+		}
+		for _, in := range c.inputs {
+			for _, w := range c.inits {
+				if in.name == w {
+					c.warm[w] = stens{[]int{1}, int64(7000 + r.Intn(900))}
+				}
+			}
+		}
+	}
 	return c
 }
 
@@ -141,7 +156,7 @@ func genC01(dir, tier string, seed int64) {
 		n = 6000
 	}
 	cw := newCaseWriter(dir, "C01_symbolic", symHeader, opFooter,
-		"seeded random DAGs over symbolic operators (outputs are hashes of operator id, attribute, input values and output index): 1..3 declared inputs, 0..2 initializers (some also declared as inputs and overridden or not, some shadowed by a caller tensor of the same name), extra caller tensors, 1..12 nodes with fan-in 0..3 and 1..3 outputs, skipped optional inputs (\"\"), omitted and arbitrarily named outputs, re-bound names, repeated operator types with different attributes; every intermediate declared as a graph output in two cases of three, a random subset of them in the third (the rest of the graph is then dead code, faults included); about 1 case in 6 carries a fault (missing input, unregistered operator type, failing node, undefined name, wrong output count, unbound output); marshalled and loaded with NewModelFromBytes", false, 100)
+		"seeded random DAGs over symbolic operators (outputs are hashes of operator id, attribute, input values and output index): 1..3 declared inputs, 0..2 initializers (some also declared as inputs and overridden or not, some shadowed by a caller tensor of the same name), extra caller tensors, 1..12 nodes with fan-in 0..3 and 1..3 outputs, skipped optional inputs (\"\"), omitted and arbitrarily named outputs, re-bound names, repeated operator types with different attributes; every intermediate declared as a graph output in two cases of three, a random subset of them in the third (the rest of the graph is then dead code, faults included); about 1 case in 6 carries a fault (missing input, unregistered operator type, failing node, undefined name, wrong output count, unbound output); in one case of three the same Model is first run once with other values and every default input overridden; marshalled and loaded with NewModelFromBytes", false, 100)
 	for i := 0; i < n; i++ {
 		fr := 6
 		if i%3 == 0 {
